@@ -196,6 +196,16 @@ fn check(p: &P6, st: &mut Stats) -> CheckResult {
     if p.later % 4 > 0 {
         read(&mut conn, "after later uploads", st)?;
     }
+    if p.snapshot && p.later % 2 == 1 {
+        // another upload for the version that already holds the snapshot is not the request that
+        // created it: whatever bytes it carries, the snapshot keeps the bytes it was created with
+        let other = Bytes::from(BytesSpec { len: 1 + (p.spec.len % 97), class: (p.spec.class + 3) % case::N_CLASSES, seed: p.spec.seed ^ 0xAA }.expand());
+        if other[..] != body[..] {
+            let _ = conn.call(Endpoint::AddSnapshot, c, v1, Some(&other))?;
+            read(&mut conn, "after a second AddSnapshot for the same version with other bytes", st)?;
+            st.label("c06:second-upload-for-the-snapshot-version");
+        }
+    }
     let nchunks = cut(&body, &p.sizes).len();
     st.label(&format!("c06:{:?}/{:?}/{}", p.entry, p.backend, if p.snapshot { "snapshot" } else { "version" }));
     st.label(&format!("c06:class:{}", case::class_name(p.spec.class)));
